@@ -138,4 +138,5 @@ type Scenario struct {
 	BestEffortMinVal bool        `json:"bestEffortMinValues"`
 	Parallelism      int         `json:"parallelism"` // scheduler.NumConcurrentReconciles
 	ReservedCapacity bool        `json:"reservedCapacity"`
+	MaxInstanceTypes int         `json:"maxInstanceTypes"` // 0 = leave scheduling.MaxInstanceTypes alone
 }
